@@ -121,6 +121,18 @@ func c08Script(k c08Case, nm c08Names, ns string) (string, []string) {
 				sb.WriteString("  public function viaStatic() { return static::name(); }\n")
 				sb.WriteString("  public function selfClass() { return self::class; }\n")
 				sb.WriteString("  public function staticClass() { return static::class; }\n")
+				// the same bindings when the method is entered through a static call C::m()
+				sb.WriteString("  public static function sViaSelf() { return self::name(); }\n")
+				sb.WriteString("  public static function sViaStatic() { return static::name(); }\n")
+				sb.WriteString("  public static function sSelfClass() { return self::class; }\n")
+				sb.WriteString("  public static function sStaticClass() { return static::class; }\n")
+				sb.WriteString("  public static function sNewSelf() { return get_class(new self()); }\n")
+				sb.WriteString("  public static function sNewStatic() { return get_class(new static()); }\n")
+				sb.WriteString("  public function newStatic() { return get_class(new static()); }\n")
+				// static:: reaching a method that is itself inherited from further up and binds late again
+				sb.WriteString("  public static function relay() { return static::name(); }\n")
+				sb.WriteString("  public function viaRelay() { return static::relay(); }\n")
+				sb.WriteString("  public static function sViaRelay() { return static::relay(); }\n")
 				if k.HasParentDef[c-1] == 1 {
 					sb.WriteString("  public function viaParent() { return parent::who(); }\n")
 					fmt.Fprintf(&sb, "  public function chain() { return \"%s>\" . parent::chain(); }\n", nm.C(c))
@@ -136,6 +148,16 @@ func c08Script(k c08Case, nm c08Names, ns string) (string, []string) {
 				fmt.Fprintf(&sb, "try { echo $o->%s() . \";\"; } catch (\\Throwable $e) { echo \"undef;\"; }\n", m)
 				labels = append(labels, fmt.Sprintf("%s/o=%d", m, c))
 			}
+			fmt.Fprintf(&sb, "try { echo $o->newStatic() . \";\"; } catch (\\Throwable $e) { echo \"undef;\"; }\n")
+			labels = append(labels, fmt.Sprintf("newStatic/o=%d", c))
+			fmt.Fprintf(&sb, "try { echo $o->viaRelay() . \";\"; } catch (\\Throwable $e) { echo \"undef;\"; }\n")
+			labels = append(labels, fmt.Sprintf("viaRelay/o=%d", c))
+			fmt.Fprintf(&sb, "try { echo %s::sViaRelay() . \";\"; } catch (\\Throwable $e) { echo \"undef;\"; }\n", nm.C(c))
+			labels = append(labels, fmt.Sprintf("sViaRelay/o=%d", c))
+			for _, m := range []string{"sViaSelf", "sViaStatic", "sSelfClass", "sStaticClass", "sNewSelf", "sNewStatic"} {
+				fmt.Fprintf(&sb, "try { echo %s::%s() . \";\"; } catch (\\Throwable $e) { echo \"undef;\"; }\n", nm.C(c), m)
+				labels = append(labels, fmt.Sprintf("%s/o=%d", m, c))
+			}
 		}
 	case "like":
 		sb.WriteString("interface " + nm.I(1) + " {")
@@ -149,6 +171,11 @@ func c08Script(k c08Case, nm c08Names, ns string) (string, []string) {
 			fmt.Fprintf(&sb, "class %s", nm.C(c))
 			if k.Ext[c-1] != 0 {
 				fmt.Fprintf(&sb, " extends %s", nm.C(k.Ext[c-1]))
+			}
+			for _, e := range k.Impl {
+				if e[0] == c {
+					fmt.Fprintf(&sb, " implements %s", nm.I(1))
+				}
 			}
 			sb.WriteString(" {")
 			for m, a := range k.Prov[c-1] {
@@ -190,7 +217,7 @@ func c08Expected(k c08Case, nm c08Names, ns string) []string {
 		for c := 0; c < nc; c++ {
 			n := k.Nearest[c]
 			if n == 0 {
-				exp = append(exp, "undef", "undef", "undef", "undef", "undef", "undef", "undef")
+				exp = append(exp, "undef", "undef", "undef", "undef", "undef", "undef", "undef", "undef", "undef", "undef", "undef", "undef", "undef", "undef", "undef", "undef")
 				continue
 			}
 			exp = append(exp, "who@"+nm.C(n), nm.C(n), nm.C(c+1), nsp+nm.C(n), nsp+nm.C(c+1))
@@ -204,6 +231,8 @@ func c08Expected(k c08Case, nm c08Names, ns string) []string {
 				chain += nm.C(d) + ">"
 			}
 			exp = append(exp, chain)
+			// newStatic (instance entry), then the static entries: self binds to the definer n, static to the called class c
+			exp = append(exp, nsp+nm.C(c+1), nm.C(c+1), nm.C(c+1), nm.C(n), nm.C(c+1), nsp+nm.C(n), nsp+nm.C(c+1), nsp+nm.C(n), nsp+nm.C(c+1))
 		}
 	case "like":
 		for c := 0; c < nc; c++ {
@@ -218,7 +247,7 @@ func C08(c *Ctx) *kf.Report {
 	rep := &kf.Report{Property: "C08", Level: "model_checking", Coverage: map[string]any{}}
 	rep.Assumptions = []string{
 		"classes of the subtype aspect extend \\Exception so that the same fixture serves instanceof, typed parameters and catch",
-		"dispatch fixture: every class has static name(); definers have who(), viaSelf() {self::name()}, viaStatic() {static::name()}, selfClass() {self::class}, staticClass() {static::class}, viaParent() {parent::who()}, chain() {name . parent::chain()}",
+		"dispatch fixture: every class has static name(); definers have who(), viaSelf() {self::name()}, viaStatic() {static::name()}, selfClass() {self::class}, staticClass() {static::class}, viaParent() {parent::who()}, chain() {name . parent::chain()}, newStatic() {get_class(new static())} and the static entries sViaSelf / sViaStatic / sSelfClass / sStaticClass / sNewSelf / sNewStatic called as C::m() on every class",
 		"`like` is queried against an interface without parents declaring 1..2 methods of arity 0/1",
 	}
 	type cfg struct {
@@ -285,9 +314,9 @@ func C08(c *Ctx) *kf.Report {
 				}
 				q := strings.SplitN(labels[i], "/", 2)[0]
 				id := fmt.Sprintf("C08/q=%s/h=%s/%s", q, hid, labels[i])
-				if q == "selfClass" {
+				if q == "selfClass" || q == "sSelfClass" {
 					o := 0
-					fmt.Sscanf(labels[i], "selfClass/o=%d", &o)
+					fmt.Sscanf(labels[i], q+"/o=%d", &o)
 					nsp := ""
 					if ns != "" {
 						nsp = ns + "\\"
